@@ -86,3 +86,11 @@ for _n, _h, _nested, _m, _full in [(n, h, ne, m, f) for (n, h, ne) in (("nested"
                        "buffer growth (realloc inside d_string_insert / stack_push) is not modelled here: capacities are symbolic and executions that outgrow them are covered by a larger capacity; "
                        "strings have no bytes in this unit (safety of byte accesses is the marker-buffer unit's subject; here 'inside the string' is obligation (P) over offsets)", NOFAIL]
                       + ["my_strdup (static, strlen+malloc+strcpy) is replaced by a contract stub returning a fresh string: CBMC 6.11 DFCC forbids allocation inside a loop that carries a loop contract"])
+
+# ---- path resolution (file.c): absolute base unchanged, relative base appended to the directory with exactly one separator
+U("c13_path_from_dir_base", ["C13"], "h_path", ["C13/path.c"], ["file.c"], plain=True, lib=("lib/ds_sink.c", "lib/libc_models.c"), kind="bounded",
+  defines=["-DSINK_CAP=12", "-DPN=3"], cbmc_flags=["--unwind", "14", "--unwinding-assertions"], bounds={"dir, base length<=": 3, "bytes": "full domain", "unwind": 14},
+  functions=["path_from_dir_base", "add_trailing_sep", "is_separator", "my_strdup (file.c)"], callees={"d_string_*": "ghost sink", "strlen/strcpy": "byte-loop models"},
+  min_obligations=10, timeout=300, cost=15, assumptions=[NOFAIL, "POSIX separator (the build's configuration)"])
+U("c13_path_from_dir_base_null", ["C13"], "h_path_null", ["C13/path.c"], ["file.c"], plain=True, lib=("lib/ds_sink.c", "lib/libc_models.c"), kind="finite",
+  defines=["-DSINK_CAP=12"], cbmc_flags=["--unwind", "14", "--unwinding-assertions"], functions=["path_from_dir_base"], min_obligations=1, timeout=120, cost=2)
